@@ -320,7 +320,7 @@ def cli_cases(draw):
         a = draw(st.one_of(st.integers(0, L - 1), st.integers(0, m["sizes"][ci] - 1).map(lambda k: 10 * k)))
         b = draw(st.one_of(st.integers(a + 1, L), st.integers(a // 10 + 1, m["sizes"][ci]).map(lambda k: 10 * k)))
         regs.append([ci, a, b])
-    return {"part": "cli", **m, "opts": o, "regions": regs, "header": draw(st.booleans()),
+    return {"part": "cli", **m, "opts": o, "regions": regs, "header": draw(st.sampled_from([False, True, "hash"])),
             # --ignore-dist D: ignore max(ignore_diags, ceil(D / binsize)) diagonals (bins are 10 bp wide here)
             "ignore_dist": draw(st.sampled_from([None, None, 10, 20, 30, 15, 25, 5]))}
 
@@ -342,7 +342,8 @@ def check_cli(case, ctx: Ctx):
     try:
         with open(bed, "w") as f:
             if case["header"]:
-                f.write("chrom\tstart\tend\n")
+                # a header line, plain or the way bedtools / UCSC exports write it ("#chrom ...")
+                f.write(("#" if case["header"] == "hash" else "") + "chrom\tstart\tend\n")
             for ci, a, b in case["regions"]:
                 f.write(f"chr{ci + 1}\t{a}\t{b}\n")
         args = ["balance", path, "-p", 1, "--blacklist", bed]
@@ -385,7 +386,7 @@ def check_cli(case, ctx: Ctx):
             check(np.allclose(w[fin_], ref["weights"][fin_], rtol=1e-8, atol=0),
                   lambda: f"cooler balance {[a for a in args[2:]]}: stored weights differ from the documented procedure with "
                           f"{o['ignore_diags']} ignored diagonals, max rel {np.max(np.abs(w[fin_] - ref['weights'][fin_]) / np.abs(ref['weights'][fin_])):.3g}")
-    ctx.record(case, any(a % 10 == 0 or b % 10 == 0 for _, a, b in case["regions"]), ["cli-blacklist", "header" if case["header"] else "no-header"])
+    ctx.record(case, any(a % 10 == 0 or b % 10 == 0 for _, a, b in case["regions"]), ["cli-blacklist", ("header-" + str(case["header"])) if case["header"] else "no-header"])
 
 
 CHECKS = {"balance": check_balance, "cli": check_cli}
